@@ -236,6 +236,55 @@ theorem member_construction_fact : Gen.Committee.memberRange = "filtered[:limit]
     ("PublicKey", "v.PublicKey") ∈ Gen.Committee.memberFields ∧
     ("VotingPower", "v.StakedAmount") ∈ Gen.Committee.memberFields := by decide
 
+
+/-! ## the historical lookup -/
+
+/-- `LoadCommittee(chain, h)` derives the committee with the same `GetCommitteeMembers` on a state machine
+opened by `TimeMachine(h)` — never from the live state machine -/
+theorem load_committee_shape : Gen.Committee.loadCommitteeSrc = [
+  "historicalFSM, err := s.TimeMachine(height)",
+  "if err != nil {",
+  "  return lib.ValidatorSet{}, err",
+  "}",
+  "defer historicalFSM.Discard()",
+  "vs, err := historicalFSM.GetCommitteeMembers(chainId)",
+  "return vs, err"
+] := rfl
+
+/-- `TimeMachine(h)`: `h = 0` or beyond the current height means the current height; otherwise a
+read-only store at exactly `h` (history immutability of that store is C10); the per-height validator
+cache is only consulted for strictly past heights -/
+theorem time_machine_shape : Gen.Committee.timeMachineSrc = [
+  "if height == 0 || height > s.height {",
+  "  height = s.height",
+  "}",
+  "if height == 0 {",
+  "  return s, nil",
+  "}",
+  "store, ok := s.store.(lib.StoreI)",
+  "if !ok {",
+  "  return nil, ErrWrongStoreType()",
+  "}",
+  "heightStore, err := store.NewReadOnly(height)",
+  "if err != nil {",
+  "  return nil, err",
+  "}",
+  "historicalFSM, err := newStateMachine(s.Config, heightStore, s.Plugin, s.Metrics, s.log, s.cache.sharedCache)",
+  "if err != nil {",
+  "  return nil, err",
+  "}",
+  "if height < s.height && s.cache.sharedCache != nil {",
+  "  s.cache.sharedCache.RLock()",
+  "  if validators, ok := s.cache.sharedCache.sets[height]; ok {",
+  "    historicalFSM.cache.liveValidators = validators",
+  "  } else {",
+  "    historicalFSM.cache.sharedValidatorSet = height",
+  "  }",
+  "  s.cache.sharedCache.RUnlock()",
+  "}",
+  "return historicalFSM, nil"
+] := rfl
+
 /-! ## non-vacuity -/
 def exA : Val := { address := [1], publicKey := [11], stake := 5, committees := [1], maxPausedHeight := 0, unstakingHeight := 0, delegate := false }
 def exB : Val := { address := [2], publicKey := [12], stake := 5, committees := [1], maxPausedHeight := 0, unstakingHeight := 0, delegate := false }
